@@ -261,7 +261,7 @@ func (d *Document) AddHeader(headerType HeaderFooterType, text string) error {
 	header.Paragraphs = append(header.Paragraphs, paragraph)
 
 	// 生成关系ID
-	headerID := fmt.Sprintf("rId%d", len(d.documentRelationships.Relationships)+2) // +2因为rId1保留给styles
+	headerID := d.nextDocumentRelationshipID() // +2因为rId1保留给styles
 
 	// 序列化页眉
 	headerXML, err := xml.MarshalIndent(header, "", "  ")
@@ -314,7 +314,7 @@ func (d *Document) AddFooter(footerType HeaderFooterType, text string) error {
 	footer.Paragraphs = append(footer.Paragraphs, paragraph)
 
 	// 生成关系ID
-	footerID := fmt.Sprintf("rId%d", len(d.documentRelationships.Relationships)+2) // +2因为rId1保留给styles
+	footerID := d.nextDocumentRelationshipID() // +2因为rId1保留给styles
 
 	// 序列化页脚
 	footerXML, err := xml.MarshalIndent(footer, "", "  ")
@@ -393,7 +393,7 @@ func (d *Document) AddHeaderWithPageNumber(headerType HeaderFooterType, text str
 	header.Paragraphs = append(header.Paragraphs, paragraph)
 
 	// 生成关系ID
-	headerID := fmt.Sprintf("rId%d", len(d.documentRelationships.Relationships)+2) // +2因为rId1保留给styles
+	headerID := d.nextDocumentRelationshipID() // +2因为rId1保留给styles
 
 	// 序列化页眉
 	headerXML, err := xml.MarshalIndent(header, "", "  ")
@@ -472,7 +472,7 @@ func (d *Document) AddFooterWithPageNumber(footerType HeaderFooterType, text str
 	footer.Paragraphs = append(footer.Paragraphs, paragraph)
 
 	// 生成关系ID
-	footerID := fmt.Sprintf("rId%d", len(d.documentRelationships.Relationships)+2) // +2因为rId1保留给styles
+	footerID := d.nextDocumentRelationshipID() // +2因为rId1保留给styles
 
 	// 序列化页脚
 	footerXML, err := xml.MarshalIndent(footer, "", "  ")
@@ -631,7 +631,7 @@ func (d *Document) AddFormattedHeader(headerType HeaderFooterType, config *Heade
 	header.Paragraphs = append(header.Paragraphs, paragraph)
 
 	// 生成关系ID
-	headerID := fmt.Sprintf("rId%d", len(d.documentRelationships.Relationships)+2) // +2因为rId1保留给styles
+	headerID := d.nextDocumentRelationshipID() // +2因为rId1保留给styles
 
 	// 序列化页眉
 	headerXML, err := xml.MarshalIndent(header, "", "  ")
@@ -696,7 +696,7 @@ func (d *Document) AddFormattedFooter(footerType HeaderFooterType, config *Heade
 	footer.Paragraphs = append(footer.Paragraphs, paragraph)
 
 	// 生成关系ID
-	footerID := fmt.Sprintf("rId%d", len(d.documentRelationships.Relationships)+2) // +2因为rId1保留给styles
+	footerID := d.nextDocumentRelationshipID() // +2因为rId1保留给styles
 
 	// 序列化页脚
 	footerXML, err := xml.MarshalIndent(footer, "", "  ")
